@@ -45,9 +45,11 @@ Proved for ALL inputs (no size bound):
   `relock_exact_provides_partial`  virtual names, versioned provides, several providers, competing non-members: the
                                  lock re-resolves to exactly the locked set under the negated classes F09a–F09n and
                                  "two members provide one name only without versions";
-  `relock_unlisted_exact_provides_partial`  the same from `relockClass = unlisted` (classes F09m, F09n found here);
-  `F09b_needed`, `F09h_needed`, `F09m_self_needed`, `F09m_twice_needed`, `F09n_needed`   witnesses.
-  Not proved: `RelockClassesComplete` without the residual hypothesis; install_if (F09c) is outside every theorem.
+  `relock_unlisted_exact_provides_partial`  the same from `relockClass = unlisted` (classes F09m, F09n, F09o found here);
+  `relock_classes_complete`      `RelockClassesComplete` holds: on the model every failing round trip is in a listed class;
+  `F09b_needed`, `F09h_needed`, `F09m_self_needed`, `F09m_twice_needed`, `F09n_needed`, `F09o_needed`   witnesses.
+  Outside every fixpoint theorem: install_if (class F09c covers every universe that has one); the multi-architecture
+  disqualification of the original run (`dq0`) is covered (any `dq0`), the re-resolution is the single-architecture one.
 -/
 import Apko.Proofs.Lemmas.Lock
 import Apko.Proofs.Lemmas.RelockInv
@@ -1331,14 +1333,14 @@ theorem names_of_pairwise {S : List Pkg} (hd : S.Pairwise (fun a b => a.name ≠
       · exact ih hxs h1 h2
 
 /-- the statement aimed at, for ALL universes (provides and virtual names included): the driver's classifier is
-complete — a resolution whose class is `unlisted` round-trips exactly.  OPEN in this generality: proved below for
-universes without provides (`relock_unlisted_exact_partial`) and, in Lemmas/RelockProvides.lean, for universes WITH
-provides under one residual hypothesis the classifier does not decide (`relock_unlisted_exact_provides_partial`: two
-different members provide one name only without versions) plus `ownNames`-like provider order.  The proof attempts are
-what found the classes F09l, F09m and F09n.  The provides families of harness/suite_lock.go search the open part for a
-counterexample on every run (Go = Impl and a failing round trip of class `unlisted` is a VIOLATION). -/
+complete — a resolution whose class is `unlisted` round-trips exactly.  (`horder`: the provider order of `nameMap`
+knows every package, as Go's map does and as the driver's `ownNames` does; `EntriesReadBack`: a fact about characters.)
+PROVED: `relock_classes_complete` in Lemmas/RelockProvides.lean — after the proof attempts had found four holes in the
+class list, F09l, F09m, F09n and F09o, each replayed on the real code and now listed.  Below: the part without
+provides (`relock_unlisted_exact_partial`), which does not need `horder`. -/
 def RelockClassesComplete : Prop :=
   ∀ (c : Cfg) (w : List Text) (dq0 : List Nat) (r : Resolution), resolve c w dq0 = .ok r → C02.IdsDistinct c.u →
+    (∀ p ∈ c.u.all, p.name ∈ c.order) →
     EntriesReadBack w r.install → relockClass c.u w r.install = "unlisted" →
     ∃ r', resolve c (lockOf w r.install) [] = .ok r' ∧ sameMembers r'.install r.install
 
@@ -1368,6 +1370,7 @@ theorem relock_unlisted_exact_partial (c : Cfg) (w : List Text) (dq0 : List Nat)
   next hdup =>
   split at hcls; · exact absurd hcls (by decide)
   next hjunk =>
+  split at hcls; · exact absurd hcls (by decide)
   split at hcls; · exact absurd hcls (by decide)
   split at hcls; · exact absurd hcls (by decide)
   -- unpack the classifier
